@@ -213,7 +213,26 @@ func checkC20(c *Check) {
 		}
 		c.Funcs[fname(h)] = true
 		n := 0
-		for _, ci := range callsIn(h) {
+		var hcalls []ssa.CallInstruction
+		{
+			// the per-file work may have been moved into helpers of package main
+			seenF := map[*ssa.Function]bool{h: true}
+			work := []*ssa.Function{h}
+			for d := 0; d < 3 && len(work) > 0; d++ {
+				var next []*ssa.Function
+				for _, g := range work {
+					for _, ci := range callsIn(g) {
+						hcalls = append(hcalls, ci)
+						if f := staticCallee(ci); f != nil && f.Pkg == h.Pkg && len(f.Blocks) > 0 && !seenF[f] {
+							seenF[f] = true
+							next = append(next, f)
+						}
+					}
+				}
+				work = next
+			}
+		}
+		for _, ci := range hcalls {
 			if !calleeIs(ci, "os", "OpenFile") {
 				continue
 			}
